@@ -728,7 +728,7 @@ def shrink_case(chk, model, impl, c, mo, io, want_oracle_reject, budget=300):
             ver, _ = run_lines(model, ["%s\t%s" % (cc, chk.normalize(cc, i2)) for cc, i2 in zip(cands, ios)], args=tuple(getattr(chk, "oracle_args", ("oracle",))))
         for k, cc in enumerate(cands):
             m2, i2 = chk.normalize(cc, mos[k]), chk.normalize(cc, ios[k])
-            if "BADCASE" in (m2.split(" ")[0], i2.split(" ")[0]):
+            if m2.split(" ")[0] in ("BADCASE", "NOTRUN") or i2.split(" ")[0] in ("BADCASE", "NOTRUN"):
                 continue      # a candidate that is not a well-formed case of this harness
             if m2 != i2 and (not want_oracle_reject or ver[k] == "0") and len(cc) < len(c):
                 c, mo, io = cc, m2, i2
